@@ -9,12 +9,13 @@
    No proofs here. *)
 From Coq Require Import List ZArith Bool Lia.
 Import ListNotations.
-From OV Require Export C01.Codec C01.Builtins C01.Types Gen.C01ServiceTypes.
+From OV Require Export C01.Codec C01.Builtins C01.Types C01.Argument Gen.C01ServiceTypes.
 Open Scope Z_scope.
 
 Inductive case :=
 | CVal (t : ty) (v : uval) (o : opts) (rest : bytes)
-| CBytes (t : ty) (o : opts) (bs : bytes).
+| CBytes (t : ty) (o : opts) (bs : bytes)
+| CArg (a : argval) (o : opts) (rest : bytes).    (* the hand-written Argument structure *)
 
 Definition zlen {A} (l : list A) : Z := Z.of_nat (length l).
 
@@ -36,8 +37,20 @@ Definition report (t : ty) (o : opts) (input : bytes) : list Z :=
   | Panic _ => [-2]
   end.
 
+Definition pr_arg : argval -> list Z := ser_arg ser_scalar.
+Definition report_arg (o : opts) (input : bytes) : list Z :=
+  match run (dec_arg o) input with
+  | Ok (v', rest') =>
+      [0; zlen input - zlen rest'; zlen (pr_arg v')] ++ pr_arg v' ++ [zlen (enc_arg v')] ++ enc_arg v'
+  | Err _ => [-1]
+  | Panic _ => [-2]
+  end.
+
 Definition run (c : case) : list Z :=
   match c with
+  | CArg a o rest =>
+      let b := enc_arg a in
+      [len_arg a; zlen b] ++ b ++ report_arg o (b ++ rest)
   | CVal t v o rest =>
       let b := enc_ty t v in
       [len_ty t v; zlen b] ++ b ++ report t o (b ++ rest)
@@ -170,8 +183,33 @@ Definition oracle_bytes (t : ty) (o : opts) (bs : bytes) (out : list Z) : bool :
   | Panic _ => false
   end.
 
+(* the Argument structure: name, type id and description strings within the string limit, the
+   dimensions (those actually written) within the array limit *)
+Definition fits_arg (o : opts) (a : argval) : bool :=
+  match a with Arg name dt rank dims desc =>
+    fits_ustr (max_str o) name && fits_nodeid o dt
+    && match (if 0 <? rank then dims else Some []) with
+       | Some ds => zlen ds <=? max_arr o
+       | None => true end
+    && fits_scalar o O desc
+  end.
+Definition oracle_arg (a : argval) (o : opts) (out : list Z) : bool :=
+  match out with
+  | bl :: n :: more =>
+      let tail := skipn (Z.to_nat n) more in
+      (bl =? n) && (0 <=? n) && (n <=? zlen more) &&
+      if fits_arg o a
+      then match starts_with ([0; n; zlen (pr_arg (norm_arg a))] ++ pr_arg (norm_arg a)) tail with
+           | Some (n2 :: b2) => n2 =? zlen b2
+           | _ => false
+           end
+      else list_eqb tail [-1]
+  | _ => false
+  end.
+
 Definition oracle (c : case) (out : list Z) : bool :=
   match c with
+  | CArg a o rest => oracle_arg a o out
   | CVal t v o rest => oracle_val t v o out
   | CBytes t o bs => oracle_bytes t o bs out
   end.
@@ -182,6 +220,7 @@ Definition plain (o : opts) : Prop :=
   offset_ns o = 0 /\ 0 <= max_depth o /\ 0 <= max_str o /\ 0 <= max_bstr o /\ 0 <= max_arr o.
 Definition valid (c : case) : Prop :=
   match c with
+  | CArg a o rest => wf_arg a /\ plain o
   | CVal t v o rest => wf_ty t v /\ plain o
   | CBytes t o bs =>
       plain o /\ (forall v rest, Codec.run (dec_ty t o (depth0 o)) bs = Ok (v, rest) -> wf_ty t v)
